@@ -184,6 +184,14 @@ func seqRule(c *core.Ctx, t *c10type) {
 		}
 	}
 	if stored != gv.chain {
+		// the same judged on SSA, so that a store through a local pointer (hdr := &s.Header; hdr.SequenceID = id) is followed
+		if sf := c.Prog.SSAFunc(set); sf != nil && len(sf.Params) == 2 {
+			if ch, ok := setterChain(sf); ok {
+				stored = ch
+			}
+		}
+	}
+	if stored != gv.chain {
 		c.Fail("C10-SEQ", key, c.Prog.Pos(set.Pos()), fmt.Sprintf("SetSequenceID stores into %q but GetSequenceID returns %q", stored, gv.chain))
 		return
 	}
@@ -1285,4 +1293,76 @@ func readHeaderLayout(c *core.Ctx, rel string) (map[string]hdrSrc, int64, bool) 
 		off += int64(o.Width)
 	}
 	return out, off, true
+}
+
+// setterChain: the setter's only store writes its parameter (possibly converted) into a field path of the receiver; the
+// path ("Header.SequenceID", "Header.Sequence[2]").
+func setterChain(sf *ssa.Function) (string, bool) {
+	var st *ssa.Store
+	for _, b := range sf.Blocks {
+		for _, ins := range b.Instrs {
+			x, ok := ins.(*ssa.Store)
+			if !ok {
+				continue
+			}
+			// the spill of a value receiver / of the parameter into its own slot does not count
+			if al, isAl := x.Addr.(*ssa.Alloc); isAl && (x.Val == ssa.Value(sf.Params[0]) || x.Val == ssa.Value(sf.Params[1])) {
+				_ = al
+				continue
+			}
+			if st != nil {
+				return "", false
+			}
+			st = x
+		}
+	}
+	if st == nil {
+		return "", false
+	}
+	v := stripConv(st.Val)
+	if ld, isLd := v.(*ssa.UnOp); isLd && ld.Op == token.MUL {
+		// the parameter read back from its spill slot
+		if al, isAl := ld.X.(*ssa.Alloc); isAl && al.Referrers() != nil {
+			for _, r := range *al.Referrers() {
+				if s2, isSt := r.(*ssa.Store); isSt && s2.Addr == ssa.Value(al) {
+					v = s2.Val
+				}
+			}
+		}
+	}
+	if v != ssa.Value(sf.Params[1]) {
+		return "", false
+	}
+	var parts []string
+	addr := st.Addr
+	for i := 0; i < 8; i++ {
+		switch x := addr.(type) {
+		case *ssa.FieldAddr:
+			stt, _ := x.X.Type().Underlying().(*types.Pointer).Elem().Underlying().(*types.Struct)
+			if stt == nil {
+				return "", false
+			}
+			parts = append([]string{"." + stt.Field(x.Field).Name()}, parts...)
+			addr = x.X
+			continue
+		case *ssa.IndexAddr:
+			k, ok := constInt(x.Index)
+			if !ok {
+				return "", false
+			}
+			parts = append([]string{fmt.Sprintf("[%d]", k)}, parts...)
+			addr = x.X
+			continue
+		case *ssa.Parameter:
+			if x != sf.Params[0] {
+				return "", false
+			}
+		case *ssa.Alloc:
+			// a value receiver's copy: the chain is still what the setter means to write (the value-receiver rule reports it)
+		default:
+			return "", false
+		}
+		break
+	}
+	return strings.TrimPrefix(strings.Join(parts, ""), "."), len(parts) > 0
 }
